@@ -6,7 +6,7 @@ from vk.core import Violation, Obs, Part
 from vk.build import pack_bp
 
 ID = 'C15'
-RULE = ('Part bp: mv arrays of ndim 1..4, values 0..7, pattern counts 1..40 -> mv_to_bp -> bp_to_mv round trip, padding lanes 0, shape '
+RULE = ('Part bigbp: a few arrays of 2.1-16 million values through mv_to_bp / bp_to_mv (block-wise conversions). Part bp: mv arrays of ndim 1..4, values 0..7, pattern counts 1..40 -> mv_to_bp -> bp_to_mv round trip, padding lanes 0, shape '
         '(..., S, 3, ceil(P/8)), agreement with an own packer. Part strings: k strings / value lists over the alphabet 0 1 X - R F P N and '
         'every documented alias -> mvarray/bparray (shape (S, k): patterns last), mv_str renders the documented characters and parses back; '
         'the same arguments parse to the same values again after the first result was edited in place. '
@@ -199,6 +199,41 @@ def prop_bits(case):
     return Obs(dt.itemsize > 1 or w % 8 != 0, [case['dtype'], 'short' if w < tb else 'long' if w > tb else 'exact'])
 
 
-PARTS = [Part('bp', prop_bp, strategy=bp_cases, quick=(2, 600), thorough=(8, 12000)),
+def enum_bigbp(tier):
+    """a few arrays beyond 2^21 / 2^24 values (conversions that work in blocks); values from an own arithmetic sequence"""
+    yield dict(shape=[3, 800000])
+    yield dict(shape=[5, 500003])
+    yield dict(shape=[1, 2 ** 21 + 5])
+    if tier == 'thorough':
+        yield dict(shape=[2, 3, 400001])
+        yield dict(shape=[7, 2 ** 22 - 3])
+        yield dict(shape=[2 ** 21 + 1, 9])
+        yield dict(shape=[1, 2 ** 24 + 13])
+
+
+def prop_bigbp(case):
+    from kyupy import logic
+    shape = tuple(case['shape'])
+    n = int(np.prod(shape))
+    a = (((np.arange(n, dtype=np.uint64) * np.uint64(2654435761)) >> np.uint64(9)) % np.uint64(8)).astype(np.uint8).reshape(shape)
+    bp = logic.mv_to_bp(a)
+    P = shape[-1]
+    want = shape[:-1] + (3, (P + 7) // 8)
+    if bp.shape != want:
+        raise Violation(f'mv_to_bp of shape {shape}: result shape {bp.shape}, expected {want}')
+    if not np.array_equal(bp, pack_bp(a)):
+        bad = np.argwhere(bp != pack_bp(a))[0]
+        raise Violation(f'mv_to_bp of shape {shape} differs from the documented layout, first at {bad.tolist()}')
+    back = logic.bp_to_mv(bp)
+    if not np.array_equal(back[..., :P], a):
+        bad = np.argwhere(back[..., :P] != a)
+        raise Violation(f'bp_to_mv(mv_to_bp(a)) != a for shape {shape}: {len(bad)} values differ, first at {bad[0].tolist()}')
+    if np.any(back[..., P:] != 0):
+        raise Violation(f'padding lanes are not 0 for shape {shape}')
+    return Obs(True, ['values>2^21' if n > 2 ** 21 else 'values<=2^21', 'P%8!=0' if P % 8 else 'P%8==0'], checks=n)
+
+
+PARTS = [Part('bigbp', prop_bigbp, enumerate=enum_bigbp, quick=(3, 0), thorough=(4, 0)),
+         Part('bp', prop_bp, strategy=bp_cases, quick=(2, 600), thorough=(8, 12000)),
          Part('strings', prop_str, strategy=str_cases, quick=(2, 500), thorough=(8, 10000)),
          Part('bits', prop_bits, strategy=bits_cases, quick=(2, 500), thorough=(8, 10000))]
